@@ -335,7 +335,65 @@ pub fn transport() -> Arc<quinn::TransportConfig> {
     Arc::new(t)
 }
 
+/// A TLS session store that an adversary keeps across dials, listeners and listener restarts;
+/// it counts the tickets it was given and the tickets it offered back.
+#[derive(Debug)]
+pub struct CountingSessionStore {
+    inner: Arc<rustls::client::ClientSessionMemoryCache>,
+    pub stored: std::sync::atomic::AtomicU64,
+    pub offered: std::sync::atomic::AtomicU64,
+}
+
+impl CountingSessionStore {
+    pub fn new() -> Arc<Self> {
+        Arc::new(Self {
+            inner: Arc::new(rustls::client::ClientSessionMemoryCache::new(64)),
+            stored: Default::default(),
+            offered: Default::default(),
+        })
+    }
+    pub fn stored(&self) -> u64 {
+        self.stored.load(std::sync::atomic::Ordering::SeqCst)
+    }
+    pub fn offered(&self) -> u64 {
+        self.offered.load(std::sync::atomic::Ordering::SeqCst)
+    }
+}
+
+impl rustls::client::ClientSessionStore for CountingSessionStore {
+    fn set_kx_hint(&self, server_name: ServerName<'static>, group: rustls::NamedGroup) {
+        self.inner.set_kx_hint(server_name, group)
+    }
+    fn kx_hint(&self, server_name: &ServerName<'_>) -> Option<rustls::NamedGroup> {
+        self.inner.kx_hint(server_name)
+    }
+    fn set_tls12_session(&self, server_name: ServerName<'static>, value: rustls::client::Tls12ClientSessionValue) {
+        self.inner.set_tls12_session(server_name, value)
+    }
+    fn tls12_session(&self, server_name: &ServerName<'_>) -> Option<rustls::client::Tls12ClientSessionValue> {
+        self.inner.tls12_session(server_name)
+    }
+    fn remove_tls12_session(&self, server_name: &ServerName<'static>) {
+        self.inner.remove_tls12_session(server_name)
+    }
+    fn insert_tls13_ticket(&self, server_name: ServerName<'static>, value: rustls::client::Tls13ClientSessionValue) {
+        self.stored.fetch_add(1, std::sync::atomic::Ordering::SeqCst);
+        self.inner.insert_tls13_ticket(server_name, value)
+    }
+    fn take_tls13_ticket(&self, server_name: &ServerName<'static>) -> Option<rustls::client::Tls13ClientSessionValue> {
+        let t = self.inner.take_tls13_ticket(server_name);
+        if t.is_some() {
+            self.offered.fetch_add(1, std::sync::atomic::Ordering::SeqCst);
+        }
+        t
+    }
+}
+
 pub fn client_config(identity: Option<CertKey>) -> quinn::ClientConfig {
+    client_config_with_store(identity, None)
+}
+
+pub fn client_config_with_store(identity: Option<CertKey>, store: Option<Arc<CountingSessionStore>>) -> quinn::ClientConfig {
     let b = rustls::ClientConfig::builder_with_provider(Arc::new(
         rustls::crypto::ring::default_provider(),
     ))
@@ -343,10 +401,13 @@ pub fn client_config(identity: Option<CertKey>) -> quinn::ClientConfig {
     .unwrap()
     .dangerous()
     .with_custom_certificate_verifier(Arc::new(AcceptAnyServer));
-    let crypto = match identity {
+    let mut crypto = match identity {
         Some(ck) => b.with_client_cert_resolver(Arc::new(FixedClientCert(ck))),
         None => b.with_no_client_auth(),
     };
+    if let Some(st) = store {
+        crypto.resumption = rustls::client::Resumption::store(st);
+    }
     let mut c = quinn::ClientConfig::new(Arc::new(
         quinn::crypto::rustls::QuicClientConfig::try_from(crypto).unwrap(),
     ));
@@ -400,6 +461,37 @@ impl Adversary {
             .connect_with(client_config(identity), target, sni)
             .map_err(|e| format!("connect: {e}"))?;
         connecting.await.map_err(|e| format!("{e}"))
+    }
+
+    /// `dial` with a client configuration the adversary keeps between dials (rustls only offers a
+    /// stored ticket back through the configuration - verifier and certificate resolver - that
+    /// obtained it).
+    pub async fn dial_with_config(
+        &self,
+        target: SocketAddr,
+        sni: &str,
+        config: quinn::ClientConfig,
+        wait: std::time::Duration,
+    ) -> Result<quinn::Connection, String> {
+        let connecting = self.ep.connect_with(config, target, sni).map_err(|e| format!("connect: {e}"))?;
+        let conn = connecting.await.map_err(|e| format!("{e}"))?;
+        Self::await_ack(conn, wait).await
+    }
+
+    async fn await_ack(conn: quinn::Connection, wait: std::time::Duration) -> Result<quinn::Connection, String> {
+        let ack = async {
+            let mut uni = conn.accept_uni().await.map_err(|e| format!("accept_uni: {e}"))?;
+            let mut buf = [0u8; 8];
+            uni.read_exact(&mut buf)
+                .await
+                .map_err(|e| format!("read ack: {e}"))?;
+            Ok::<_, String>(buf)
+        };
+        match tokio::time::timeout(wait, ack).await {
+            Ok(Ok(_)) => Ok(conn),
+            Ok(Err(e)) => Err(e),
+            Err(_) => Err("no acknowledgement from listener".into()),
+        }
     }
 
     /// Connect and wait for the listener's acknowledgement (the 8-byte version frame on a uni
